@@ -1,25 +1,23 @@
-(* C14 (4) — the reference reading of the JSON layer (what PHP's json_encode / json_decode do on
-   the same trees), written independently of the Go control flow.  No proofs in this file. *)
+(* C14 (4) — the reference READER of the JSON layer (what a JSON tree denotes as a PHP value, in both
+   json_decode modes) and the classes of values / trees the theorems quantify over.  The encoder has no
+   separate reference: its faithfulness is stated as "the reference reader reads its output back as
+   the value" (Properties.json_encode_denotes).  Shared with the model, hence not independent:
+   utf8_valid (the RFC 3629 table), dedupe (a repeated key keeps its first place and last value),
+   nesting, int64_ok, f_finite.  No proofs in this file. *)
 From Coq Require Import List NArith ZArith Bool.
 From V.C14 Require Import JsonModel.
 Import ListNotations.
 Open Scope N_scope.
 
-(* encoder: a list is an array, a keyed array and an object are JSON objects with their keys in
-   order, an int is an integer token, a finite float is a fraction/exponent token (it stays a
-   float when read back); NaN, the infinities and text that is not UTF-8 cannot be encoded *)
-Fixpoint spec_to_json (int_bits : Z -> N) (v : pval) : option jtree :=
+(* which values have a JSON encoding at all: every float is finite, every string and key is UTF-8.
+   (json_encode must answer false exactly on the others.) *)
+Fixpoint encodable (v : pval) : bool :=
   match v with
-  | PNull => Some JNull
-  | PBool b => Some (JBool b)
-  | PInt z => Some (JNum true z (int_bits z))
-  | PFloat b => if f_finite b then Some (JNum false 0 b) else None
-  | PStr s => if utf8_valid s then Some (JStr s) else None
-  | PList l => match opt_map_all (spec_to_json int_bits) l with Some ts => Some (JArr ts) | None => None end
-  | PMap l | PArr l =>
-      match opt_map_all (fun kv => match (if utf8_valid (fst kv) then spec_to_json int_bits (snd kv) else None) with
-                                   | Some t => Some (fst kv, t) | None => None end) l with
-      | Some ts => Some (JObj ts) | None => None end
+  | PFloat b => f_finite b
+  | PStr s => utf8_valid s
+  | PList l => forallb encodable l
+  | PMap l | PArr l => forallb (fun kv => utf8_valid (fst kv) && encodable (snd kv)) l
+  | _ => true
   end.
 
 (* a PHP array with no entries is the empty list, whatever it was decoded from *)
